@@ -249,6 +249,9 @@ def rule_guard(facts):
         fn = short(b.name)
         if (b.defk, bb) in guard_blocks or kind == "ref" or b.item == "from_stream":
             r3.ok("who-reads", None)
+        elif _feeds_error_builder(facts, b, bb) or not flow.reaches_ok(b, bb):
+            # (a read on a path that can only return the error feeds the message of the refusal, nothing else)
+            r3.ok("who-reads", None)        # handed to a function that only builds the error value (the message)
         else:
             # reading it in the guard's own block chain (operand copy) is fine: check the block feeds a guard
             gs, tm = pat.guards(b)
@@ -273,6 +276,16 @@ def rule_guard(facts):
                    "a sufficient limit no longer behaves like no limit", pat.where(b))
     r3.need("reads of the memlimit field", len(mem_reads) >= 1)
     return r, r3
+
+
+def _feeds_error_builder(facts, b, bb):
+    """The limit read in block bb is the argument of a call to a crate function that returns the crate's Error (the message
+    of the refusal) - nothing else in the block uses it."""
+    t = b.blocks[bb].term
+    if t.k != "call" or t.callee is None or not t.callee.target().local:
+        return False
+    hb = facts.by_def.get(t.callee.target().defk)
+    return hb is not None and hb.locals[0].ty.k == "adt" and (hb.locals[0].ty.name or "").endswith("error::Error") and not cfg(hb).loops()
 
 
 def rule_option_readers(facts):
